@@ -275,3 +275,33 @@ Theorem logop_reuse_without_reset_refuted :
     name (popts st) = name (popts p1) /\ name (popts tr) = name (popts p1) /\ expected (1, p2) <> SPinned tr st.
 Proof. exact logop_reuse_without_reset_refuted_l. Qed.
 Print Assumptions logop_reuse_without_reset_refuted.
+
+(* ---- streams of records decoded in a loop: state/dsstate State.Unmarshal (msgpack), cmdutils importState (JSON) ---- *)
+
+(* with the destination declared inside the loop (a fresh value per record, as both loops are written), every stream of
+   well-formed records of every record type of the table comes back as the list that was written, in both codecs, whatever
+   the destination held before (guard of the finding origins-undecodable as above) *)
+Theorem stream_decode_fresh_roundtrip c tn vs dest :
+  forallb (fun v => wf_val c api_schema true (TStruct tn) false v && negb (has_iface api_schema (TStruct tn) v)) vs = true ->
+  exists ws, stream_encode c api_schema (TStruct tn) vs = Ok ws /\ stream_decode c api_schema (TStruct tn) false dest ws = Ok vs.
+Proof.
+  exact (fun H => match stream_fresh_l c api_schema
+                          (match c with Msgpack => proj1 api_schema_wellformed | Json => proj2 api_schema_wellformed end) (TStruct tn) vs H with
+                  | ex_intro _ ws (conj E D) => ex_intro _ ws (conj E (D dest)) end).
+Qed.
+Print Assumptions stream_decode_fresh_roundtrip.
+
+(* with ONE destination for the whole stream the loop is not the identity, in either codec: two well-formed pins; msgpack
+   leaves every member the second pin has empty (absent from the wire) at the first pin's value and merges the metadata,
+   JSON (which writes every member) keeps the first pin's metadata entries in the second *)
+Theorem stream_decode_reused_refuted : forall c,
+  let vs := [pin_to_val stream_a; pin_to_val stream_b] in
+  let t := TStruct "Pin" in
+  forallb (fun v => wf_val c api_schema true t false v && negb (has_iface api_schema t v)) vs = true /\
+  exists ws, stream_encode c api_schema t vs = Ok ws /\
+    stream_decode c api_schema t false (zero_val t) ws = Ok vs /\
+    stream_decode c api_schema t true (zero_val t) ws
+      = Ok [pin_to_val stream_a; pin_to_val (match c with Msgpack => stream_b_msgpack | Json => stream_b_json end)] /\
+    stream_decode c api_schema t true (zero_val t) ws <> Ok vs.
+Proof. exact stream_reused_refuted_l. Qed.
+Print Assumptions stream_decode_reused_refuted.
